@@ -19,7 +19,7 @@ Proof.
 Qed.
 
 Section P.
-  Context (dec : N -> option N).
+  Context (dec : notif -> option (N * option N)).
   Notation lstep := (lstep dec).
   Notation lrun := (lrun dec).
   Notation lsteps := (lsteps dec).
@@ -32,7 +32,7 @@ Section P.
 
   (** *** small facts *)
   Lemma reply_of_nonfinal n : is_final (reply_of n) = false.
-  Proof. unfold Listen.reply_of. destruct (dec (n_pay n)); reflexivity. Qed.
+  Proof. unfold Listen.reply_of. destruct (dec n) as [[v e]|]; reflexivity. Qed.
 
   Lemma own_replies_app c a b : own_replies c (a ++ b) = own_replies c a ++ own_replies c b.
   Proof. unfold Listen.own_replies. now rewrite filter_app, map_app. Qed.
